@@ -11,4 +11,5 @@ Vac_StreamAllAccepted == ~(kind = "stream" /\ Len(verdicts) = MaxEnv /\ \A i \in
 Vac_TaintRejected == ~(\E i \in 1..Len(verdicts) : verdicts[i].taint /\ verdicts[i].signed /\ verdicts[i].v = "BadSig")
 Vac_EdgeAccepted == ~(\E i \in 1..Len(verdicts) : verdicts[i].signed /\ Abs(verdicts[i].skew) = fudge /\ fudge > 0 /\ verdicts[i].v = "ok")
 Vac_EdgeRejected == ~(\E i \in 1..Len(verdicts) : verdicts[i].signed /\ Abs(verdicts[i].skew) = fudge + 1 /\ verdicts[i].v = "BadTime")
+Vac_ResignAccepted == ~(\E i \in 2..Len(verdicts) : verdicts[i].signed /\ verdicts[i].v = "ok" /\ verdicts[i-1].v = "ok" /\ ~Multi)
 =============================================================================
